@@ -4,6 +4,7 @@
 (* for the enumeration and the theorems TLC checks).                            *)
 EXTENDS Integers, Sequences, FiniteSets
 CONSTANT NameOrder    \* all names as a sequence in file-name order
+ABCD == <<"a", "b", "c", "d">>       \* the order the configurations use (NameOrder <- ABCD)
 
 Rank(n) == CHOOSE i \in DOMAIN NameOrder : NameOrder[i] = n
 None == [k |-> "none", kids |-> {}]
